@@ -388,8 +388,8 @@ def parse_term(s):
         j = find_matching(s, len("drop"))
         t = parse_targets(s[j + 1:].strip()[2:].strip())
         return ("drop", parse_place(s[5:j]), t.get("return"))
-    # call:  DEST = CALLEE(args) -> [return: bbN, unwind ...]
-    m = re.search(r" -> (\[.*\]|unwind .*)$", s)
+    # call:  DEST = CALLEE(args) -> [return: bbN, unwind ...]   |   ... -> bbN  (diverging call, cleanup target only)
+    m = re.search(r" -> (\[.*\]|unwind .*|bb\d+)$", s)
     if m:
         tg = parse_targets(m.group(1)) if m.group(1).startswith("[") else {}
         body = s[:m.start()]
